@@ -21,7 +21,7 @@ MUT = tables.FS_MUTATORS
 
 def run(ctx):
     F = ctx.F['cli']
-    ctx.rule('C03.R1', 'with_commit_lock: exclusive lock on lockdir/commit.lock, closure called once under its Ok edge, file kept open', floor=4)
+    ctx.rule('C03.R1', 'with_commit_lock: exclusive lock on lockdir/commit.lock, closure called once under its Ok edge, file kept open; the lock path is never unlinked/renamed', floor=8)
     ctx.rule('C03.R2', 'every fs mutation of a live hub path is inside a held region', floor=3)
     ctx.rule('C03.R3', 'held region: current_hash read inside, cas_decide(current, client expected), mutation on the matching edge', floor=5)
     ctx.rule('C03.R4', 'cas_decide == Commit iff current == expected', floor=2)
@@ -70,6 +70,28 @@ def r1(ctx, F, hub):
                                 file_local = lt['args'][0]
     ctx.check(good, 'C03.R1', 'with_commit_lock:lock-guards-f', 'lock_exclusive(lockdir/commit.lock) Ok edge guards the closure call',
               'the closure can run without holding the exclusive lock on lockdir/commit.lock (lock result ignored, shared lock, or other file)', term_loc(b, cb))
+    # the lock is an flock on the inode behind lockdir/commit.lock, found by PATH by every server: nothing may unlink or
+    # rename that path (or anything else that is not a request path / its staging file) - including Drop impls, which no
+    # call edge reaches
+    from rules.hub import ROOT, SAFE, TAINT, OTHER
+    n_rm = 0
+    for body in F.bodies_in_file('bin/copia/serve.rs'):
+        bfl = flow_of(body)
+        for rb_, rt_ in bfl.calls(lambda c: c in ('std::fs::remove_file', 'std::fs::remove_dir', 'std::fs::remove_dir_all', 'std::fs::rename')):
+            n_rm += 1
+            ops_ = rt_['args'][:2] if callee(rt_).endswith('rename') else rt_['args'][:1]
+            labs = set()
+            for op_ in ops_:
+                labs |= hub.label_operand(body, op_)
+            in_graph = body.path in hub.graph
+            ok = in_graph and labs == {SAFE}
+            ctx.check(ok, 'C03.R1', '%s:%s:request-path-only' % (body.path.split('::{')[0].replace('serve::', '').replace(' ', '_'), callee(rt_).split('::')[-1]),
+                      'removes/renames only request paths (through safe_join) and their staging files',
+                      'serve.rs removes or renames a path that is not a request path or its staging file (labels %s%s): if this is the commit lock file, '
+                      'flock holds the unlinked inode while the next server creates and locks a fresh commit.lock - two servers are inside the commit section at once'
+                      % (sorted(labs), '' if in_graph else '; in a body no call edge reaches, e.g. a Drop impl'), term_loc(body, rb_))
+    if n_rm < 3:
+        ctx.missing('C03.R1', 'serve.rs: remove/rename sites (found %d)' % n_rm)
     # lockdir at every call site is root/.copia
     for cb2, bb2, c in hub.cg.call_sites(lambda c: c == LOCK, within=hub.graph):
         dos = hub.deep_origins(cb2, cb2.blocks[bb2]['term']['args'][0])
@@ -282,22 +304,23 @@ def r7(ctx, F):
         ctx.missing('C03.R7', 'hub::hub_sync')
     fl = flow_of(b)
     puts = fl.calls_to('hub::HubClient::put')
-    if len(puts) != 1:
-        ctx.missing('C03.R7', 'hub_sync -> HubClient::put (exactly one)')
-    pb, pt = puts[0]
-    eo = fl.origins(pt['args'][2])
-    ok = False
-    for o in eo:
-        if o.kind == 'call' and o.key.endswith('::get'):
-            m = call_arg_origins(fl, o.bb, 0)
-            k = call_arg_origins(fl, o.bb, 1)
-            rel = fl.origins(pt['args'][1])
-            if any(x.kind == 'call' and x.key == 'hub::HubClient::list' for x in m) and \
-               {(x.kind, x.key, x.bb) for x in k} == {(x.kind, x.key, x.bb) for x in rel}:
-                ok = True
-    only = all(o.kind in ('comb', 'agg') or (o.kind == 'call' and (o.key.endswith('::get') or o.key == 'hub::HubClient::list')) or o.kind == 'const' for o in eo)
-    ctx.check(ok and only, 'C03.R7', 'hub_sync:expected=listed', 'expected = hub.get(rel).map(|f| f.blake3) from the single list()',
-              'hub_sync does not pass the hash listed for the same path as `expected` (%s)' % sorted('%s:%s' % (o.kind, o.key) for o in eo), term_loc(b, pb))
+    if not puts:
+        ctx.missing('C03.R7', 'hub_sync -> HubClient::put')
+    for n_, (pb, pt) in enumerate(sorted(puts, key=lambda x: x[0])):
+        eo = fl.origins(pt['args'][2])
+        ok = False
+        for o in eo:
+            if o.kind == 'call' and o.key.endswith('::get'):
+                m = call_arg_origins(fl, o.bb, 0)
+                k = call_arg_origins(fl, o.bb, 1)
+                rel = fl.origins(pt['args'][1])
+                if any(x.kind == 'call' and x.key == 'hub::HubClient::list' for x in m) and \
+                   {(x.kind, x.key, x.bb) for x in k} == {(x.kind, x.key, x.bb) for x in rel}:
+                    ok = True
+        only = all(o.kind in ('comb', 'agg') or (o.kind == 'call' and (o.key.endswith('::get') or o.key == 'hub::HubClient::list')) or o.kind == 'const' for o in eo)
+        ctx.check(ok and only, 'C03.R7', 'hub_sync:expected=listed' + ('' if n_ == 0 else '#%d' % (n_ + 1)), 'expected = hub.get(rel).map(|f| f.blake3) from the single list()',
+                  'hub_sync sends a Put whose `expected` is not the hash listed for that path at the start of the run (%s): a write based on a value '
+                  'the user never saw overwrites what another client committed (CAS degenerates to last-writer-wins)' % sorted('%s:%s' % (o.kind, o.key) for o in eo), term_loc(b, pb))
     lists = fl.calls_to('hub::HubClient::list')
     in_loop = any(lb in blocks for lb, _ in lists for blocks in fl.cfg.loops().values())
     ctx.check(len(lists) == 1 and not in_loop, 'C03.R7', 'hub_sync:list-once', 'one list() before the loop', 'hub_sync lists the hub more than once / inside the loop', loc(b, b.lo))
